@@ -1006,16 +1006,23 @@ func (e *expEnv) emit(o *Out, c *ExpCase, id string, plain bool, checkLeaves str
 	}
 	// the k-th page fetch fails, for every k the expansion reaches (at most 12): the expansion
 	// fails - it never answers with the part of the tree it had read so far
-	if errs == "" && calls >= 1 {
+	// (column ferr: one bit per failing position, 1 = the expansion failed; the model's faultColumn)
+	if errs == "" {
+		bits, swallowed := "", ""
 		for k := int64(1); k <= calls && k <= 12; k++ {
 			ft, _, ferrs := e.runEngineFault(c, k)
 			o.Count("expand-fault-runs")
 			if ferrs == "" {
-				impl += fmt.Sprintf("\tx_fault_swallowed=storage call %d of %d failed and the expansion answered %.200s", k, calls, renderTree(ft))
-				o.Count("expand-fault-swallowed")
-				break
+				bits += "0"
+				if swallowed == "" {
+					swallowed = fmt.Sprintf("\tx_fault_swallowed=storage call %d of %d failed and the expansion answered %.200s", k, calls, renderTree(ft))
+					o.Count("expand-fault-swallowed")
+				}
+			} else {
+				bits += "1"
 			}
 		}
+		impl += "\tferr=" + bits + swallowed
 	}
 	agree := 1
 	// the transports use the registry's own engine: the default page size only
